@@ -543,6 +543,10 @@ def auto_discharge(F, site, iv=None):
         if il is not None and ii is not None and ii[0] >= 0 and ii[1] < il[0]:
             return 'D2: index in [%d,%d] below length >= %d' % (ii[0], ii[1], il[0])
         return None
+    if site.kind == 'call:index' and len(t['args']) >= 2:
+        if opty(t['args'][1]).endswith('RangeFull'):
+            return 'D1: indexing with the full range `[..]` cannot fail'
+        return None
     if site.kind == 'call:radix':
         cand = [a for a in t['args'] if a['k'] == 'const' and 'int' in a]
         if cand and all(2 <= int(a['int']) <= 36 for a in cand):
